@@ -157,6 +157,15 @@ Theorem C12_maximiser_equivariant :
        s <> 0 -> lik f0 l s (map (Rmult c) xs) <= lik f0 (c * loc) (c * scale) (map (Rmult c) xs).
 Proof. exact (@maximiser_equivariant). Qed.
 
+(* log-normal: multiplying the data by c adds ln c to the log-scale parameter mu and leaves sigma unchanged (likelihood identity) *)
+Theorem C12_lognormal_likelihood_equivariant :
+  forall (g0 : R -> R) (c mu sigma : R) (xs : list R),
+       0 < c ->
+       sigma <> 0 ->
+       Forall (fun x : R => 0 < x) xs ->
+       lik_ln g0 (mu + ln c) sigma (map (Rmult c) xs) = lik_ln g0 mu sigma xs / c ^ Datatypes.length xs.
+Proof. exact (@lognormal_likelihood_equivariant). Qed.
+
 Example C12_nonvacuous : lik (fun z => z) 0 2 [4; 6] = (4 / 2 / 2) * ((6 / 2 / 2) * 1).
 Proof. unfold lik, dens. f_equal; [|f_equal]; f_equal; f_equal; apply Rminus_0_r. Qed.
 
@@ -173,3 +182,4 @@ Print Assumptions C12_GG_glue_roundtrip_partial.
 Print Assumptions C12_VM_glue_roundtrip_partial.
 Print Assumptions C12_likelihood_equivariant.
 Print Assumptions C12_maximiser_equivariant.
+Print Assumptions C12_lognormal_likelihood_equivariant.
